@@ -228,6 +228,196 @@ theorem layered_l0 {s : Lsm} (h : Layered s) {x e : Ent} {l0 : List Tbl} {j j' :
     rw [hjeq, hjeq'] at hp
     exact hp x hx e he hk
 
+/-- `Layered` in terms of where entries are stored -/
+theorem layered_iff (s : Lsm) : Layered s ↔
+    (s.mem :: s.imm.reverse).Pairwise RecL ∧
+    (∀ x ∈ memEnts s, ∀ (i : Nat) (tbls : List Tbl) (t : Tbl), s.levels[i]? = some tbls → t ∈ tbls →
+      ∀ e ∈ t.ents, x.key = e.key → e.ver ≤ x.ver) ∧
+    (∀ (i i' : Nat) (tbls tbls' : List Tbl) (t t' : Tbl), s.levels[i]? = some tbls → s.levels[i']? = some tbls' →
+      i < i' → t ∈ tbls → t' ∈ tbls' → RecL t.ents t'.ents) ∧
+    (∀ (l0 : List Tbl) (j j' : Nat) (a b : Tbl), s.levels[0]? = some l0 → l0[j]? = some a → l0[j']? = some b →
+      j' < j → RecL a.ents b.ents) := by
+  constructor
+  · intro h
+    refine ⟨?_, ?_, ?_, ?_⟩
+    · rw [layered_def] at h
+      unfold Lsm.sources at h
+      exact (List.pairwise_append.mp h).1
+    · intro x hx i tbls t hi ht e he hk
+      exact layered_mem_level h hx hi ht he hk
+    · intro i i' tbls tbls' t t' hi hi' hlt ht ht' x hx e he hk
+      exact layered_levels h hi hi' hlt ht ht' hx he hk
+    · intro l0 j j' a b h0 hj hj' hlt x hx e he hk
+      exact layered_l0 h h0 hj hj' hlt hx he hk
+  · rintro ⟨p1, p2, p3, p4⟩
+    rw [layered_def]
+    unfold Lsm.sources
+    cases hl : s.levels with
+    | nil =>
+      simp only [List.append_nil]
+      exact p1
+    | cons l0 rest =>
+      rw [hl] at p2 p3 p4
+      simp only
+      rw [List.pairwise_append]
+      refine ⟨p1, ?_, ?_⟩
+      · rw [List.pairwise_append]
+        refine ⟨?_, ?_, ?_⟩
+        · rw [List.pairwise_map, List.pairwise_reverse, List.pairwise_iff_getElem]
+          intro j' j hj' hj hlt
+          exact p4 l0 j j' l0[j] l0[j'] rfl (List.getElem?_eq_getElem hj) (List.getElem?_eq_getElem hj') hlt
+        · rw [List.pairwise_map, List.pairwise_iff_getElem]
+          intro i i' hi hi' hlt x hx e he hk
+          obtain ⟨l, hl', hxl⟩ := List.mem_flatten.mp hx
+          obtain ⟨t, ht, rfl⟩ := List.mem_map.mp hl'
+          obtain ⟨l2, hl2, hel⟩ := List.mem_flatten.mp he
+          obtain ⟨t', ht', rfl⟩ := List.mem_map.mp hl2
+          exact p3 (i + 1) (i' + 1) rest[i] rest[i'] t t' (by simp) (by simp) (by omega) ht ht' x hxl e hel hk
+        · intro a ha c hc x hx e he hk
+          obtain ⟨t, ht, rfl⟩ := List.mem_map.mp ha
+          obtain ⟨tbls', htb, rfl⟩ := List.mem_map.mp hc
+          obtain ⟨l2, hl2, hel⟩ := List.mem_flatten.mp he
+          obtain ⟨t', ht', rfl⟩ := List.mem_map.mp hl2
+          obtain ⟨i', hi', rfl⟩ := List.getElem_of_mem htb
+          exact p3 0 (i' + 1) l0 rest[i'] t t' rfl (by simp) (by omega) (List.mem_reverse.mp ht) ht' x hx e hel hk
+      · intro m hm c hc x hx e he hk
+        have hxm : x ∈ memEnts s := mem_memEnts.mpr ⟨m, hm, hx⟩
+        rcases List.mem_append.mp hc with hc | hc
+        · obtain ⟨t, ht, rfl⟩ := List.mem_map.mp hc
+          exact p2 x hxm 0 l0 t rfl (List.mem_reverse.mp ht) e he hk
+        · obtain ⟨tbls', htb, rfl⟩ := List.mem_map.mp hc
+          obtain ⟨l2, hl2, hel⟩ := List.mem_flatten.mp he
+          obtain ⟨t', ht', rfl⟩ := List.mem_map.mp hl2
+          obtain ⟨i', hi', rfl⟩ := List.getElem_of_mem htb
+          exact p2 x hxm (i' + 1) rest[i'] t' (by simp) ht' e hel hk
+
+/-- recency ACROSS sources with level 0 regarded as ONE source: what survives an L0 → L0 compaction
+    (which merges an arbitrary subset of L0 and re-sorts the level by `Smallest`). `LL.chunks s` =
+    memtable, immutables newest first, all of L0, L1, L2, … -/
+def _root_.Badger.LayeredX (s : Lsm) : Prop :=
+  (chunks s).Pairwise (fun A B => ∀ a ∈ A, ∀ b ∈ B, a.key = b.key → b.ver ≤ a.ver)
+
+instance (s : Lsm) : Decidable (LayeredX s) := by unfold LayeredX; infer_instance
+
+/-- `LayeredX` in terms of where entries are stored -/
+theorem layeredX_iff (s : Lsm) : LayeredX s ↔
+    (s.mem :: s.imm.reverse).Pairwise RecL ∧
+    (∀ x ∈ memEnts s, ∀ (i : Nat) (tbls : List Tbl) (t : Tbl), s.levels[i]? = some tbls → t ∈ tbls →
+      ∀ e ∈ t.ents, x.key = e.key → e.ver ≤ x.ver) ∧
+    (∀ (i i' : Nat) (tbls tbls' : List Tbl) (t t' : Tbl), s.levels[i]? = some tbls → s.levels[i']? = some tbls' →
+      i < i' → t ∈ tbls → t' ∈ tbls' → RecL t.ents t'.ents) := by
+  have hX : LayeredX s ↔ (chunks s).Pairwise RecL := Iff.rfl
+  rw [hX]
+  unfold chunks
+  cases hl : s.levels with
+  | nil =>
+    simp only [List.append_nil]
+    constructor
+    · intro h; exact ⟨h, by simp, by simp⟩
+    · intro h; exact h.1
+  | cons l0 rest =>
+    simp only
+    have hmem0 : ∀ e, e ∈ (l0.reverse.map (·.ents)).flatten ↔ ∃ t ∈ l0, e ∈ t.ents := by
+      intro e
+      constructor
+      · intro h
+        obtain ⟨l, hl', hel⟩ := List.mem_flatten.mp h
+        obtain ⟨t, ht, rfl⟩ := List.mem_map.mp hl'
+        exact ⟨t, List.mem_reverse.mp ht, hel⟩
+      · rintro ⟨t, ht, hel⟩
+        exact List.mem_flatten.mpr ⟨t.ents, List.mem_map.mpr ⟨t, List.mem_reverse.mpr ht, rfl⟩, hel⟩
+    have hmemR : ∀ (tbls : List Tbl) e, e ∈ (tbls.map (·.ents)).flatten ↔ ∃ t ∈ tbls, e ∈ t.ents := by
+      intro tbls e
+      constructor
+      · intro h
+        obtain ⟨l, hl', hel⟩ := List.mem_flatten.mp h
+        obtain ⟨t, ht, rfl⟩ := List.mem_map.mp hl'
+        exact ⟨t, ht, hel⟩
+      · rintro ⟨t, ht, hel⟩
+        exact List.mem_flatten.mpr ⟨t.ents, List.mem_map.mpr ⟨t, ht, rfl⟩, hel⟩
+    constructor
+    · intro h
+      obtain ⟨p1, hlv, hcross⟩ := List.pairwise_append.mp h
+      obtain ⟨h0r, hrest⟩ := List.pairwise_cons.mp hlv
+      refine ⟨p1, ?_, ?_⟩
+      · intro x hx i tbls t hi ht e he hk
+        obtain ⟨m, hm, hxm⟩ := mem_memEnts.mp hx
+        cases i with
+        | zero =>
+          simp at hi; subst hi
+          exact hcross m hm _ (by simp) x hxm e ((hmem0 e).mpr ⟨t, ht, he⟩) hk
+        | succ j =>
+          simp at hi
+          exact hcross m hm _ (List.mem_cons_of_mem _ (List.mem_map.mpr ⟨tbls, List.mem_of_getElem? hi, rfl⟩))
+            x hxm e ((hmemR tbls e).mpr ⟨t, ht, he⟩) hk
+      · intro i i' tbls tbls' t t' hi hi' hlt ht ht' x hx e he hk
+        cases i' with
+        | zero => omega
+        | succ j' =>
+          simp at hi'
+          have he' := (hmemR tbls' e).mpr ⟨t', ht', he⟩
+          cases i with
+          | zero =>
+            simp at hi; subst hi
+            exact h0r _ (List.mem_map.mpr ⟨tbls', List.mem_of_getElem? hi', rfl⟩) x
+              ((hmem0 x).mpr ⟨t, ht, hx⟩) e he' hk
+          | succ j =>
+            simp at hi
+            obtain ⟨hj, hjeq⟩ := List.getElem?_eq_some_iff.mp hi
+            obtain ⟨hj', hjeq'⟩ := List.getElem?_eq_some_iff.mp hi'
+            have hp := List.pairwise_iff_getElem.mp hrest j j' (by simpa using hj) (by simpa using hj') (by omega)
+            simp only [List.getElem_map, hjeq, hjeq'] at hp
+            exact hp x ((hmemR tbls x).mpr ⟨t, ht, hx⟩) e he' hk
+    · rintro ⟨p1, p2, p3⟩
+      rw [List.pairwise_append]
+      refine ⟨p1, ?_, ?_⟩
+      · refine List.pairwise_cons.mpr ⟨?_, ?_⟩
+        · intro c hc x hx e he hk
+          obtain ⟨tbls', htb, rfl⟩ := List.mem_map.mp hc
+          obtain ⟨t, ht, hxt⟩ := (hmem0 x).mp hx
+          obtain ⟨t', ht', het⟩ := (hmemR tbls' e).mp he
+          obtain ⟨i', hi', rfl⟩ := List.getElem_of_mem htb
+          exact p3 0 (i' + 1) l0 rest[i'] t t' rfl (by simp) (by omega) ht ht' x hxt e het hk
+        · rw [List.pairwise_map, List.pairwise_iff_getElem]
+          intro i i' hi hi' hlt x hx e he hk
+          obtain ⟨t, ht, hxt⟩ := (hmemR _ x).mp hx
+          obtain ⟨t', ht', het⟩ := (hmemR _ e).mp he
+          exact p3 (i + 1) (i' + 1) rest[i] rest[i'] t t' (by simp) (by simp) (by omega) ht ht' x hxt e het hk
+      · intro m hm c hc x hx e he hk
+        have hxm : x ∈ memEnts s := mem_memEnts.mpr ⟨m, hm, hx⟩
+        rcases List.mem_cons.mp hc with rfl | hc
+        · obtain ⟨t, ht, het⟩ := (hmem0 e).mp he
+          exact p2 x hxm 0 l0 t rfl ht e het hk
+        · obtain ⟨tbls', htb, rfl⟩ := List.mem_map.mp hc
+          obtain ⟨t', ht', het⟩ := (hmemR tbls' e).mp he
+          obtain ⟨i', hi', rfl⟩ := List.getElem_of_mem htb
+          exact p2 x hxm (i' + 1) rest[i'] t' (by simp) ht' e het hk
+
+/-- level 0 is in age order: a table with a higher index holds, per key, only versions `≥` those of
+    a table with a lower index -/
+def L0Aged (s : Lsm) : Prop :=
+  ∀ (l0 : List Tbl) (j j' : Nat) (a b : Tbl), s.levels[0]? = some l0 → l0[j]? = some a → l0[j']? = some b →
+    j' < j → RecL a.ents b.ents
+
+theorem layered_iff_X (s : Lsm) : Layered s ↔ LayeredX s ∧ L0Aged s := by
+  rw [layered_iff, layeredX_iff]
+  unfold L0Aged
+  constructor
+  · rintro ⟨p1, p2, p3, p4⟩; exact ⟨⟨p1, p2, p3⟩, p4⟩
+  · rintro ⟨⟨p1, p2, p3⟩, p4⟩; exact ⟨p1, p2, p3, p4⟩
+
+theorem layeredX_of_layered {s : Lsm} (h : Layered s) : LayeredX s := ((layered_iff_X s).mp h).1
+
+theorem layeredX_mem_level {s : Lsm} (h : LayeredX s) {x e : Ent} {i : Nat} {tbls : List Tbl} {t : Tbl}
+    (hx : x ∈ memEnts s) (hi : s.levels[i]? = some tbls) (ht : t ∈ tbls) (he : e ∈ t.ents)
+    (hk : x.key = e.key) : e.ver ≤ x.ver :=
+  ((layeredX_iff s).mp h).2.1 x hx i tbls t hi ht e he hk
+
+theorem layeredX_levels {s : Lsm} (h : LayeredX s) {x e : Ent} {i i' : Nat} {tbls tbls' : List Tbl} {t t' : Tbl}
+    (hi : s.levels[i]? = some tbls) (hi' : s.levels[i']? = some tbls') (hlt : i < i') (ht : t ∈ tbls)
+    (ht' : t' ∈ tbls') (hx : x ∈ t.ents) (he : e ∈ t'.ents) (hk : x.key = e.key) : e.ver ≤ x.ver :=
+  ((layeredX_iff s).mp h).2.2 i i' tbls tbls' t t' hi hi' hlt ht ht' x hx e he hk
+
 theorem mem_lvlChunk {i : Nat} {tbls : List Tbl} {x : Ent} : x ∈ lvlChunk i tbls ↔ ∃ t ∈ tbls, x ∈ t.ents := by
   unfold lvlChunk
   split
@@ -326,8 +516,19 @@ def cdMerged (s : Lsm) (cd : CompactDef) : List Ent :=
   mergeAll ((if cd.thisLevel == 0 then (cdTops s cd).reverse.map (·.ents) else (cdTops s cd).map (·.ents)) ++
     [botEnts s cd])
 
+/-- the `hasOverlap` flag of `subcompact`; since the F1 repair (badger commit d24306c) an L0 → L0
+    compaction always keeps its markers -/
 def cdHasOverlap (s : Lsm) (cd : CompactDef) : Bool :=
-  checkOverlap s (cdTops s cd ++ cdBots s cd) (cd.nextLevel + 1)
+  (cd.thisLevel == 0 && cd.nextLevel == 0) || checkOverlap s (cdTops s cd ++ cdBots s cd) (cd.nextLevel + 1)
+
+theorem cdHasOverlap_false {s : Lsm} {cd : CompactDef} (h : cdHasOverlap s cd = false) :
+    ¬ (cd.thisLevel = 0 ∧ cd.nextLevel = 0) ∧
+      checkOverlap s (cdTops s cd ++ cdBots s cd) (cd.nextLevel + 1) = false := by
+  unfold cdHasOverlap at h
+  rw [Bool.or_eq_false_iff] at h
+  refine ⟨?_, h.2⟩
+  rintro ⟨h1, h2⟩
+  simp [h1, h2] at h
 
 theorem compactOutput_eq {s : Lsm} {cd : CompactDef} (hdp : cd.dropPrefixes = []) (d n now : Nat) :
     compactOutput s cd d n now =
@@ -543,7 +744,8 @@ theorem below_no_key {s : Lsm} {cd : CompactDef} (h : LsmInv s) (hv : VerBound s
       exact hcov t (List.mem_append_left _ ht) e het
     · obtain ⟨t, ht, het⟩ := mem_botEnts.mp h1
       exact hcov t (List.mem_append_right _ ht) e het
-  unfold cdHasOverlap checkOverlap at hov
+  have hov := (cdHasOverlap_false hov).2
+  unfold checkOverlap at hov
   rw [hkr] at hov
   simp only at hov
   apply readLv_eq_none
@@ -590,9 +792,34 @@ theorem reads_core {s : Lsm} {cd : CompactDef} {d n now' now ts : Nat} {k : Byte
     rw [m2] at h1
     rw [h1, hZ hov e hin m2]; rfl
 
-/-- a table that stays on the level of the tops is searched before them (L0), or shares no user
-    key with them (levels `≥ 1`) -/
-theorem rem_vs_tops {s : Lsm} {cd : CompactDef} (h : LsmInv s) (hl : Layered s) (hc : CompactOk s cd)
+/-- the tables left on the level of the tops hold, for every user key of the tops, only versions at
+    least as new. Automatic for an L0 → Lbase compaction of the OLDEST tables of an age-ordered L0
+    (`topsOldest_of_layered`); after an L0 → L0 compaction has re-sorted L0 by `Smallest` it is a
+    genuine (decidable) side condition of L0 → Lbase. -/
+def _root_.Badger.TopsOldest (s : Lsm) (cd : CompactDef) : Prop :=
+  ∀ t ∈ removeIdx (cdThisT s cd) cd.top, ∀ x ∈ t.ents, ∀ t' ∈ cdTops s cd, ∀ e ∈ t'.ents,
+    x.key = e.key → e.ver ≤ x.ver
+
+instance (s : Lsm) (cd : CompactDef) : Decidable (TopsOldest s cd) := by unfold TopsOldest; infer_instance
+
+theorem topsOldest_of_layered {s : Lsm} {cd : CompactDef} (h : LsmInv s) (hl : Layered s) (hb : CdBase s cd)
+    (hh : IsL0Lbase s cd) : TopsOldest s cd := by
+  intro t ht x hx t' ht' e het' hk
+  obtain ⟨hthis, _⟩ := this_level h hb
+  obtain ⟨j, hj, hjn⟩ := mem_removeIdx.mp ht
+  obtain ⟨j', hj'm, hj'⟩ := mem_pickIdx.mp ht'
+  obtain ⟨h0, _, hr, _, _⟩ := hh
+  rw [h0] at hthis
+  have hlt : j' < j := by
+    have h1 : j' < cd.top.length := by rw [hr] at hj'm; simpa using hj'm
+    have h2 : ¬ j < cd.top.length := by intro h2; apply hjn; rw [hr]; simpa using h2
+    omega
+  exact layered_l0 hl hthis hj hj' hlt hx het' hk
+
+/-- a table that stays on the level of the tops holds newer versions (L0, by `TopsOldest`), or shares
+    no user key with them (levels `≥ 1`) -/
+theorem rem_vs_tops {s : Lsm} {cd : CompactDef} (h : LsmInv s) (hc : CompactOk s cd)
+    (hto : cd.thisLevel = 0 → TopsOldest s cd)
     (hne : cd.thisLevel ≠ cd.nextLevel) {t : Tbl} (ht : t ∈ removeIdx (cdThisT s cd) cd.top) {x e : Ent}
     (hx : x ∈ t.ents) (he : e ∈ topEnts s cd) (hk : x.key = e.key) : e.ver ≤ x.ver := by
   obtain ⟨hb, hcase⟩ := hc
@@ -607,13 +834,7 @@ theorem rem_vs_tops {s : Lsm} {cd : CompactDef} (h : LsmInv s) (hl : Layered s) 
     · exact klt_ne (hs x hx e het') hk
     · exact klt_ne (hs e het' x hx) hk.symm
   rcases hcase with hh | hh | hh | hh
-  · obtain ⟨h0, _, hr, _, _⟩ := hh
-    rw [h0] at hthis
-    have hlt : j' < j := by
-      have h1 : j' < cd.top.length := by rw [hr] at hj'm; simpa using hj'm
-      have h2 : ¬ j < cd.top.length := by intro h2; apply hjn; rw [hr]; simpa using h2
-      omega
-    exact layered_l0 hl hthis hj hj' hlt hx het' hk
+  · exact hto hh.1 t ht x hx t' ht' e het' hk
   · exact hkd hh.1
   · exact absurd (hh.1.trans hh.2.1.symm) hne
   · exact absurd hh.2.1.symm hne
@@ -638,7 +859,7 @@ theorem nextT_eq {s : Lsm} {cd : CompactDef} (h : cd.nextLevel < s.levels.length
   unfold cdNextT; rw [List.getD_eq_getElem?_getD, List.getElem?_eq_getElem h]; rfl
 
 /-- the candidates of `k` found before the compacted tables are at least as new as them -/
-theorem upper_rec {s : Lsm} {cd : CompactDef} (h : LsmInv s) (hl : Layered s) (hc : CompactOk s cd)
+theorem upper_rec {s : Lsm} {cd : CompactDef} (h : LsmInv s) (hl : LayeredX s) (hc : CompactOk s cd)
     (hle : cd.thisLevel ≤ cd.nextLevel) {k : Bytes} {ts : Nat} {x e : Ent}
     (hx : pick (newestLE (memEnts s) k ts) (readLv k ts 0 (s.levels.take cd.thisLevel)) = some x)
     (he : e ∈ topEnts s cd ++ botEnts s cd) (hk : e.key = k) : e.ver ≤ x.ver := by
@@ -649,18 +870,19 @@ theorem upper_rec {s : Lsm} {cd : CompactDef} (h : LsmInv s) (hl : Layered s) (h
   obtain ⟨i, tbls, t, hi, ht, het, hge⟩ := hlev
   rcases pick_some hx with ⟨h1, _⟩ | ⟨h1, _⟩
   · obtain ⟨m1, m2, _, _⟩ := newestLE_some h1
-    exact layered_mem_level hl m1 hi ht het (m2.trans hk.symm)
+    exact layeredX_mem_level hl m1 hi ht het (m2.trans hk.symm)
   · obtain ⟨j, tbls', t', hj, ht', hxt', hxk, _⟩ := readLv_some h1
     have hjlt : j < cd.thisLevel := by
       have := (List.getElem?_eq_some_iff.mp hj).1
       simp at this; omega
     have hj' : s.levels[j]? = some tbls' := by
       rw [List.getElem?_take] at hj; simpa [hjlt] using hj
-    exact layered_levels hl hj' hi (by omega) ht' ht hxt' het (hxk.trans hk.symm)
+    exact layeredX_levels hl hj' hi (by omega) ht' ht hxt' het (hxk.trans hk.symm)
 
 /-- L0→Lbase and Li→Li+1: two different levels, nothing in between -/
 theorem compact_reads_two {s s' : Lsm} {cd : CompactDef} {d n now' now ts : Nat} {k : Bytes} (h : LsmInv s)
-    (hv : VerBound s) (hl : Layered s) (hc : CompactOk s cd) (hdp : cd.dropPrefixes = [])
+    (hv : VerBound s) (hl : LayeredX s) (hc : CompactOk s cd) (hto : cd.thisLevel = 0 → TopsOldest s cd)
+    (hdp : cd.dropPrefixes = [])
     (hs : s.compact cd d n now' = some s') (hts : d ≤ ts) (hnow : now' ≤ now)
     (hpq : cd.thisLevel < cd.nextLevel)
     (hM : readLv k ts (cd.thisLevel + 1)
@@ -696,8 +918,8 @@ theorem compact_reads_two {s s' : Lsm} {cd : CompactDef} {d n now' now ts : Nat}
       · obtain ⟨m1, m2, _, _⟩ := newestLE_some h1
         obtain ⟨t, ht, hxt⟩ := mem_lvlChunk.mp m1
         rcases input_level h hc.1 he with ⟨_, _, _, _, h5⟩ | ⟨t', h2, h3, h4, _⟩
-        · exact rem_vs_tops h hl hc hne ht hxt h5 (m2.trans hk.symm)
-        · exact layered_levels hl (this_level h hc.1).1 h2 hpq ((removeIdx_sublist _ _).subset ht) h3 hxt h4
+        · exact rem_vs_tops h hc hto hne ht hxt h5 (m2.trans hk.symm)
+        · exact layeredX_levels hl (this_level h hc.1).1 h2 hpq ((removeIdx_sublist _ _).subset ht) h3 hxt h4
             (m2.trans hk.symm))
   rw [nl_merged h hc] at core
   simp only [pick_assoc, pick_none_left] at core ⊢
@@ -737,7 +959,7 @@ theorem nl_next_old_same {s : Lsm} {cd : CompactDef} (h : LsmInv s) (hc : Compac
 
 /-- Lmax→Lmax: one level `≥ 1`, rewritten in place -/
 theorem compact_reads_same {s s' : Lsm} {cd : CompactDef} {d n now' now ts : Nat} {k : Bytes} (h : LsmInv s)
-    (hv : VerBound s) (hl : Layered s) (hc : CompactOk s cd) (hdp : cd.dropPrefixes = [])
+    (hv : VerBound s) (hl : LayeredX s) (hc : CompactOk s cd) (hdp : cd.dropPrefixes = [])
     (hs : s.compact cd d n now' = some s') (hts : d ≤ ts) (hnow : now' ≤ now)
     (heq : cd.nextLevel = cd.thisLevel) (hn : 1 ≤ cd.nextLevel) :
     visible now (s'.get k ts) = visible now (s.get k ts) := by
@@ -767,69 +989,6 @@ theorem compact_reads_same {s s' : Lsm} {cd : CompactDef} {d n now' now ts : Nat
   rw [nl_merged h hc] at core
   simp only [pick_assoc] at core ⊢
   exact core
-
-/-- `Layered` in terms of where entries are stored -/
-theorem layered_iff (s : Lsm) : Layered s ↔
-    (s.mem :: s.imm.reverse).Pairwise RecL ∧
-    (∀ x ∈ memEnts s, ∀ (i : Nat) (tbls : List Tbl) (t : Tbl), s.levels[i]? = some tbls → t ∈ tbls →
-      ∀ e ∈ t.ents, x.key = e.key → e.ver ≤ x.ver) ∧
-    (∀ (i i' : Nat) (tbls tbls' : List Tbl) (t t' : Tbl), s.levels[i]? = some tbls → s.levels[i']? = some tbls' →
-      i < i' → t ∈ tbls → t' ∈ tbls' → RecL t.ents t'.ents) ∧
-    (∀ (l0 : List Tbl) (j j' : Nat) (a b : Tbl), s.levels[0]? = some l0 → l0[j]? = some a → l0[j']? = some b →
-      j' < j → RecL a.ents b.ents) := by
-  constructor
-  · intro h
-    refine ⟨?_, ?_, ?_, ?_⟩
-    · rw [layered_def] at h
-      unfold Lsm.sources at h
-      exact (List.pairwise_append.mp h).1
-    · intro x hx i tbls t hi ht e he hk
-      exact layered_mem_level h hx hi ht he hk
-    · intro i i' tbls tbls' t t' hi hi' hlt ht ht' x hx e he hk
-      exact layered_levels h hi hi' hlt ht ht' hx he hk
-    · intro l0 j j' a b h0 hj hj' hlt x hx e he hk
-      exact layered_l0 h h0 hj hj' hlt hx he hk
-  · rintro ⟨p1, p2, p3, p4⟩
-    rw [layered_def]
-    unfold Lsm.sources
-    cases hl : s.levels with
-    | nil =>
-      simp only [List.append_nil]
-      exact p1
-    | cons l0 rest =>
-      rw [hl] at p2 p3 p4
-      simp only
-      rw [List.pairwise_append]
-      refine ⟨p1, ?_, ?_⟩
-      · rw [List.pairwise_append]
-        refine ⟨?_, ?_, ?_⟩
-        · rw [List.pairwise_map, List.pairwise_reverse, List.pairwise_iff_getElem]
-          intro j' j hj' hj hlt
-          exact p4 l0 j j' l0[j] l0[j'] rfl (List.getElem?_eq_getElem hj) (List.getElem?_eq_getElem hj') hlt
-        · rw [List.pairwise_map, List.pairwise_iff_getElem]
-          intro i i' hi hi' hlt x hx e he hk
-          obtain ⟨l, hl', hxl⟩ := List.mem_flatten.mp hx
-          obtain ⟨t, ht, rfl⟩ := List.mem_map.mp hl'
-          obtain ⟨l2, hl2, hel⟩ := List.mem_flatten.mp he
-          obtain ⟨t', ht', rfl⟩ := List.mem_map.mp hl2
-          exact p3 (i + 1) (i' + 1) rest[i] rest[i'] t t' (by simp) (by simp) (by omega) ht ht' x hxl e hel hk
-        · intro a ha c hc x hx e he hk
-          obtain ⟨t, ht, rfl⟩ := List.mem_map.mp ha
-          obtain ⟨tbls', htb, rfl⟩ := List.mem_map.mp hc
-          obtain ⟨l2, hl2, hel⟩ := List.mem_flatten.mp he
-          obtain ⟨t', ht', rfl⟩ := List.mem_map.mp hl2
-          obtain ⟨i', hi', rfl⟩ := List.getElem_of_mem htb
-          exact p3 0 (i' + 1) l0 rest[i'] t t' rfl (by simp) (by omega) (List.mem_reverse.mp ht) ht' x hx e hel hk
-      · intro m hm c hc x hx e he hk
-        have hxm : x ∈ memEnts s := mem_memEnts.mpr ⟨m, hm, hx⟩
-        rcases List.mem_append.mp hc with hc | hc
-        · obtain ⟨t, ht, rfl⟩ := List.mem_map.mp hc
-          exact p2 x hxm 0 l0 t rfl (List.mem_reverse.mp ht) e he hk
-        · obtain ⟨tbls', htb, rfl⟩ := List.mem_map.mp hc
-          obtain ⟨l2, hl2, hel⟩ := List.mem_flatten.mp he
-          obtain ⟨t', ht', rfl⟩ := List.mem_map.mp hl2
-          obtain ⟨i', hi', rfl⟩ := List.getElem_of_mem htb
-          exact p2 x hxm (i' + 1) rest[i'] t' (by simp) ht' e hel hk
 
 /-- where an entry of the state after a compaction was stored before it -/
 theorem entry_origin {s : Lsm} {cd : CompactDef} {d n now : Nat} {new0 : List Tbl} (h : LsmInv s)
@@ -898,6 +1057,14 @@ theorem between_empty {s : Lsm} {cd : CompactDef} (hc : CompactOk s cd) {i : Nat
   · rw [hh.2.1] at h2; omega
   · rw [hh.2.1] at h2; omega
 
+theorem isL0Lbase_of {s : Lsm} {cd : CompactDef} (hc : CompactOk s cd) (h0 : cd.thisLevel = 0)
+    (hne : cd.thisLevel ≠ cd.nextLevel) : IsL0Lbase s cd := by
+  rcases hc.2 with hh | hh | hh | hh
+  · exact hh
+  · have := hh.1; omega
+  · exact absurd (hh.1.trans hh.2.1.symm) hne
+  · have := hh.1; omega
+
 /-- (C) recency is preserved by every well-formed compaction other than L0 → L0 -/
 theorem compact_layered {s s' : Lsm} {cd : CompactDef} {d n now : Nat} (h : LsmInv s) (hl : Layered s)
     (hc : CompactOk s cd) (hnot : ¬ IsL0L0 s cd) (hs : s.compact cd d n now = some s') : Layered s' := by
@@ -922,7 +1089,7 @@ theorem compact_layered {s s' : Lsm} {cd : CompactDef} {d n now : Nat} (h : LsmI
         · exact p3 i _ tbls _ t tt f3 (this_level h hc.1).1 hlow ht (tops_mem htt) x hx e hett hk
         · have := between_empty hc (by omega) (by omega) f3
           rw [this] at ht; simp at ht
-      · exact rem_vs_tops h hl hc f2 f3 hx gtop hk
+      · exact rem_vs_tops h hc (fun h0 => topsOldest_of_layered h hl hc.1 (isL0Lbase_of hc h0 f2)) f2 f3 hx gtop hk
       · omega
       · omega
       · omega
@@ -999,6 +1166,66 @@ theorem flush_layered {s : Lsm} (hl : Layered s) (himm : s.imm = []) (id : Nat) 
         subst this
         simp at hj; subst hj
         exact p2 x (hM x hx) 0 l0 b h0s (List.mem_of_getElem? hb) e he' hk
+
+/-- (C) cross-source recency `LayeredX` is preserved by EVERY well-formed compaction, L0 → L0
+    included; for L0 → Lbase under `TopsOldest` (automatic when L0 is in age order) -/
+theorem compact_layeredX {s s' : Lsm} {cd : CompactDef} {d n now : Nat} (h : LsmInv s) (hl : LayeredX s)
+    (hc : CompactOk s cd) (hto : IsL0Lbase s cd → TopsOldest s cd)
+    (hs : s.compact cd d n now = some s') : LayeredX s' := by
+  obtain ⟨new0, hsp, rfl⟩ := compact_some hs
+  obtain ⟨p1, p2, p3⟩ := (layeredX_iff s).mp hl
+  have hle := this_le_next hc
+  rw [layeredX_iff]
+  refine ⟨p1, ?_, ?_⟩
+  · intro x hx i tbls t hi ht e he hk
+    rcases entry_origin_level h hc hsp hi ht he with ⟨tb, t0, h1, h2, h3⟩ | ⟨_, _, tb, t0, h1, h2, h3⟩
+    · exact p2 x hx _ tb t0 h1 h2 e h3 hk
+    · exact p2 x hx _ tb t0 h1 h2 e h3 hk
+  · intro i i' tbls tbls' t t' hi hi' hlt ht ht' x hx e he hk
+    simp only at hi hi'
+    rcases entry_origin_level h hc hsp hi' ht' he with ⟨tb', t0', g1, g2, g3⟩ | ⟨gnext, gtop, _⟩
+    · rcases entry_origin_level h hc hsp hi ht hx with ⟨tb, t0, f1, f2, f3⟩ | ⟨fnext, _, tb, t0, f1, f2, f3⟩
+      · exact p3 i i' tb tb' t0 t0' f1 g1 hlt f2 g2 x f3 e g3 hk
+      · exact p3 _ i' tb tb' t0 t0' f1 g1 (by omega) f2 g2 x f3 e g3 hk
+    · rcases entry_origin h hc hsp hi ht hx with ⟨n1, n2, f3⟩ | ⟨f1, f2, f3⟩ | ⟨f1, _⟩ | ⟨f1, _⟩ | ⟨f1, _⟩
+      · obtain ⟨tt, htt, hett⟩ := mem_topEnts.mp gtop
+        by_cases hlow : i < cd.thisLevel
+        · exact p3 i _ tbls _ t tt f3 (this_level h hc.1).1 hlow ht (tops_mem htt) x hx e hett hk
+        · have := between_empty hc (by omega) (by omega) f3
+          rw [this] at ht; simp at ht
+      · exact rem_vs_tops h hc (fun h0 => hto (isL0Lbase_of hc h0 f2)) f2 f3 hx gtop hk
+      · omega
+      · omega
+      · omega
+
+theorem flush_layeredX {s : Lsm} (hl : LayeredX s) (himm : s.imm = []) (id : Nat) : LayeredX (s.flush id) := by
+  rcases flush_eq_self_or s id with he | ⟨l0, rest, hlv, _, he⟩
+  · rw [he]; exact hl
+  · rw [he]
+    obtain ⟨p1, p2, p3⟩ := (layeredX_iff s).mp hl
+    rw [layeredX_iff]
+    have hM : ∀ x ∈ s.mem, x ∈ memEnts s := fun x hx => mem_memEnts.mpr ⟨s.mem, by simp, hx⟩
+    refine ⟨?_, ?_, ?_⟩
+    · simp [himm]
+    · intro x hx
+      exfalso
+      unfold memEnts at hx; simp [himm] at hx
+    · intro i i' tbls tbls' t t' hi hi' hlt ht ht' x hx e he' hk
+      simp only at hi hi'
+      cases i' with
+      | zero => omega
+      | succ j' =>
+        have hi'' : s.levels[j' + 1]? = some tbls' := by rw [hlv]; simpa using hi'
+        cases i with
+        | zero =>
+          simp at hi; subst hi
+          rcases List.mem_append.mp ht with ht | ht
+          · exact p3 0 (j' + 1) l0 tbls' t t' (by rw [hlv]; rfl) hi'' (by omega) ht ht' x hx e he' hk
+          · simp at ht; subst ht
+            exact p2 x (hM x hx) (j' + 1) tbls' t' hi'' ht' e he' hk
+        | succ j =>
+          have hi2 : s.levels[j + 1]? = some tbls := by rw [hlv]; simpa using hi
+          exact p3 (j + 1) (j' + 1) tbls tbls' t t' hi2 hi'' hlt ht ht' x hx e he' hk
 
 end LL
 
@@ -1125,10 +1352,12 @@ theorem kvFun_chunk {i : Nat} {l : List Tbl} (hs : ∀ t ∈ l, SortedEnts t.ent
 theorem reads_core' {s : Lsm} {cd : CompactDef} {d n now' now ts : Nat} {k : Bytes} (h : LsmInv s)
     (hc : CompactOk s cd) (hdp : cd.dropPrefixes = [])
     (hts : d ≤ ts) (hnow : now' ≤ now) {U Z : Option Ent}
-    (hK : ∀ e, newestLE (cdMerged s cd) k ts = some e → deletedOrExpired e.emeta e.exp now' = true →
+    (hK : cdHasOverlap s cd = false → ∀ e, newestLE (cdMerged s cd) k ts = some e →
+      deletedOrExpired e.emeta e.exp now' = true →
       newestLE (compactOutput s cd d n now').1 k ts = none → newestLE (keptEnts s cd) k ts = none)
     (hZ : cdHasOverlap s cd = false → ∀ e ∈ topEnts s cd ++ botEnts s cd, e.key = k → Z = none)
-    (hU : ∀ x e, U = some x → e ∈ topEnts s cd ++ botEnts s cd → e.key = k → e.ver ≤ x.ver) :
+    (hU : cdHasOverlap s cd = false → ∀ x e, U = some x → e ∈ topEnts s cd ++ botEnts s cd → e.key = k →
+      e.ver ≤ x.ver) :
     visible now (pick U (pick (newestLE (compactOutput s cd d n now').1 k ts)
         (pick (newestLE (keptEnts s cd) k ts) Z))) =
       visible now (pick U (pick (newestLE (cdMerged s cd) k ts) (pick (newestLE (keptEnts s cd) k ts) Z))) := by
@@ -1142,17 +1371,18 @@ theorem reads_core' {s : Lsm} {cd : CompactDef} {d n now' now ts : Nat} {k : Byt
   · right
     obtain ⟨m1, m2, _, _⟩ := newestLE_some he
     have hin : e ∈ topEnts s cd ++ botEnts s cd := List.mem_append.mpr (mem_merged m1)
-    refine ⟨hnone, e, he, deletedOrExpired_mono hnow hdead, ?_, fun x hx => hU x e hx hin m2⟩
-    rw [hK' e he hdead hnone, hZ hov e hin m2]; rfl
+    refine ⟨hnone, e, he, deletedOrExpired_mono hnow hdead, ?_, fun x hx => hU hov x e hx hin m2⟩
+    rw [hK' hov e he hdead hnone, hZ hov e hin m2]; rfl
 
-/-- L0 → L0 under distinct internal keys across L0 and "no excluded table shares a user key with a
-    dropped marker" -/
+theorem kvFun_subset {L L' : List Ent} (hf : KVFun L) (hsub : ∀ x ∈ L', x ∈ L) : KVFun L' :=
+  fun x hx y hy hk hv => hf x (hsub x hx) y (hsub y hy) hk hv
+
+/-- L0 → L0 (after the F1 repair `hasOverlap = true`, so no marker is dropped): reads are preserved
+    as soon as an internal key determines the entry within L0 — the only thing needed to make the
+    re-sorting of L0 by `Smallest` harmless (cf. F2). -/
 theorem compact_reads_l0l0 {s s' : Lsm} {cd : CompactDef} {d n now' now ts : Nat} {k : Bytes} (h : LsmInv s)
-    (hv : VerBound s) (hl : Layered s) (hc : CompactOk s cd) (hk0 : IsL0L0 s cd)
-    (hdist : TblsDistinct (cdThisT s cd))
-    (hex : ∀ e ∈ topEnts s cd, deletedOrExpired e.emeta e.exp now' = true →
-      e ∉ (compactOutput s cd d n now').1 →
-      ∀ t ∈ removeIdx (cdThisT s cd) cd.top, ∀ x ∈ t.ents, x.key ≠ e.key)
+    (hv : VerBound s) (hc : CompactOk s cd) (hk0 : IsL0L0 s cd)
+    (hfun : KVFun (lvlChunk 0 (cdThisT s cd)))
     (hdp : cd.dropPrefixes = []) (hs : s.compact cd d n now' = some s') (hts : d ≤ ts) (hnow : now' ≤ now) :
     visible now (s'.get k ts) = visible now (s.get k ts) := by
   have hinvW := compact_invW h hv hc hs
@@ -1161,20 +1391,29 @@ theorem compact_reads_l0l0 {s s' : Lsm} {cd : CompactDef} {d n now' now ts : Nat
   have heq : cd.nextLevel = cd.thisLevel := hnx.trans hth.symm
   have hq := hc.1.2.1
   have hnt := nextT_eq_thisT (s := s) heq
-  obtain ⟨_, htok⟩ := this_level h hc.1
   have hkidx : keptIdx cd = cd.top := by unfold keptIdx; rw [if_pos heq.symm, hbot]; simp
   have hbotE : botEnts s cd = [] := by unfold botEnts cdBots; rw [hbot]; simp [pickIdx]
+  have hovT : cdHasOverlap s cd = true := by unfold cdHasOverlap; simp [hth, hnx]
   rw [get_eq_newestLE hinvW, get_eq_newestLE (lsmInv_weaken h), newestLE_allEntries, newestLE_allEntries]
   have hmem : memEnts ({ s with levels := newLevels s cd new0 } : Lsm) = memEnts s := rfl
   rw [hmem]
   simp only
   have hnl : newLevels s cd new0 = s.levels.set cd.nextLevel (newNext s cd new0) := by
     unfold newLevels; rw [if_pos heq.symm]
+  have hkeptSub : ∀ e ∈ keptEnts s cd, e ∈ lvlChunk 0 (cdThisT s cd) := by
+    intro e he
+    obtain ⟨t, ht, het⟩ := mem_keptEnts.mp he
+    rw [hnt] at ht
+    exact mem_lvlChunk.mpr ⟨t, (removeIdx_sublist _ _).subset ht, het⟩
+  have htopSub : ∀ e ∈ topEnts s cd, e ∈ lvlChunk 0 (cdThisT s cd) := by
+    intro e he
+    obtain ⟨t, ht, het⟩ := mem_topEnts.mp he
+    exact mem_lvlChunk.mpr ⟨t, tops_mem ht, het⟩
   -- the old level 0
   have hold : newestLE (lvlChunk cd.nextLevel (cdNextT s cd)) k ts =
       pick (newestLE (lvlChunk cd.thisLevel (cdTops s cd)) k ts) (newestLE (keptEnts s cd) k ts) := by
-    rw [hnt, heq]
-    apply newestLE_union_kv (kvFun_chunk (fun t ht => (htok.1 t ht).2) hdist)
+    rw [hnt, heq, hth]
+    apply newestLE_union_kv hfun
     intro e
     rw [mem_lvlChunk, mem_lvlChunk, mem_keptEnts, hkidx, hnt]
     unfold cdTops
@@ -1187,7 +1426,6 @@ theorem compact_reads_l0l0 {s s' : Lsm} {cd : CompactDef} {d n now' now ts : Nat
       · exact ⟨t, (mem_pick_or_remove _ cd.top t).mpr (.inl ht), he⟩
       · exact ⟨t, (mem_pick_or_remove _ cd.top t).mpr (.inr ht), he⟩
   -- the new level 0
-  obtain ⟨hnew, _⟩ := new_tables h hc hsp
   obtain ⟨hflat, _⟩ := splitSizes_spec hsp
   have hN : ∀ e, e ∈ (compactOutput s cd d n now').1 ↔ ∃ t ∈ withIds new0 cd.outIds, e ∈ t.ents := by
     intro e
@@ -1211,38 +1449,14 @@ theorem compact_reads_l0l0 {s s' : Lsm} {cd : CompactDef} {d n now' now ts : Nat
     · rintro (⟨t, ht, he⟩ | ⟨t, ht, he⟩)
       · exact ⟨t, mem_sortBySmallest.mpr (List.mem_append_right _ ht), he⟩
       · exact ⟨t, mem_sortBySmallest.mpr (List.mem_append_left _ ht), he⟩
-  have hkeptFun : KVFun (keptEnts s cd) := by
-    have : keptEnts s cd = lvlChunk 1 (removeIdx (cdNextT s cd) (keptIdx cd)) := by
-      unfold keptEnts lvlChunk; simp
-    rw [this, hnt]
-    apply kvFun_chunk (fun t ht => (htok.1 t ((removeIdx_sublist _ _).subset ht)).2)
-    exact List.Pairwise.sublist (removeIdx_sublist _ _) hdist
   have hnewFun : KVFun (lvlChunk cd.nextLevel (newNext s cd new0)) := by
-    have hout := out_sorted h hc d n now'
-    intro x hx y hy hkxy hvxy
-    have cross : ∀ a b, a ∈ (compactOutput s cd d n now').1 → b ∈ keptEnts s cd → a.key = b.key → a.ver = b.ver → False := by
-      intro a b ha hb hkab hvab
-      rcases mem_compactOutput ha with h1 | h1
-      · obtain ⟨ta, hta, hata⟩ := mem_topEnts.mp h1
-        obtain ⟨ja, hja, hjta⟩ := mem_pickIdx.mp hta
-        obtain ⟨tb, htb, hbtb⟩ := mem_keptEnts.mp hb
-        rw [hkidx, hnt] at htb
-        obtain ⟨jb, hjtb, hjb⟩ := mem_removeIdx.mp htb
-        have hp := List.pairwise_iff_getElem.mp hdist
-        obtain ⟨hla, hea⟩ := List.getElem?_eq_some_iff.mp hjta
-        obtain ⟨hlb, heb⟩ := List.getElem?_eq_some_iff.mp hjtb
-        rcases Nat.lt_trichotomy ja jb with hlt | heq' | hgt
-        · have := hp ja jb hla hlb hlt; rw [hea, heb] at this
-          exact this a hata b hbtb hkab hvab
-        · subst heq'; exact hjb hja
-        · have := hp jb ja hlb hla hgt; rw [hea, heb] at this
-          exact this b hbtb a hata hkab.symm hvab.symm
-      · rw [hbotE] at h1; simp at h1
-    rcases (hmemNew x).mp hx with hx1 | hx1 <;> rcases (hmemNew y).mp hy with hy1 | hy1
-    · exact sorted_unique hout hx1 hy1 hkxy hvxy
-    · exact absurd (cross x y hx1 hy1 hkxy hvxy) id
-    · exact absurd (cross y x hy1 hx1 hkxy.symm hvxy.symm) id
-    · exact hkeptFun x hx1 y hy1 hkxy hvxy
+    apply kvFun_subset hfun
+    intro e he
+    rcases (hmemNew e).mp he with h1 | h1
+    · rcases mem_compactOutput h1 with h2 | h2
+      · exact htopSub e h2
+      · rw [hbotE] at h2; simp at h2
+    · exact hkeptSub e h1
   have hnewL : newestLE (lvlChunk cd.nextLevel (newNext s cd new0)) k ts =
       pick (newestLE (compactOutput s cd d n now').1 k ts) (newestLE (keptEnts s cd) k ts) :=
     newestLE_union_kv hnewFun hmemNew k ts
@@ -1251,29 +1465,9 @@ theorem compact_reads_l0l0 {s s' : Lsm} {cd : CompactDef} {d n now' now ts : Nat
     h hc hdp hts hnow
     (U := pick (newestLE (memEnts s) k ts) (readLv k ts 0 (s.levels.take cd.nextLevel)))
     (Z := readLv k ts (cd.nextLevel + 1) (s.levels.drop (cd.nextLevel + 1)))
-    (by
-      intro e he hdead hnone
-      obtain ⟨m1, m2, m3, _⟩ := newestLE_some he
-      have hetop : e ∈ topEnts s cd := by
-        rcases mem_merged m1 with h1 | h1
-        · exact h1
-        · rw [hbotE] at h1; simp at h1
-      have henot : e ∉ (compactOutput s cd d n now').1 := by
-        intro hin
-        exact newestLE_eq_none.mp hnone e hin ⟨m2, m3⟩
-      apply newestLE_eq_none.mpr
-      rintro x hx ⟨hxk, _⟩
-      obtain ⟨t, ht, hxt⟩ := mem_keptEnts.mp hx
-      rw [hkidx, hnt] at ht
-      exact hex e hetop hdead henot t ht x hxt (hxk.trans m2.symm))
-    (by
-      intro hov e he hk
-      have := below_no_key h hv hc hov he ts
-      rwa [hk] at this)
-    (by
-      intro x e hx he hk
-      rw [heq] at hx
-      exact upper_rec h hl hc (by omega) hx he hk)
+    (by intro hov; rw [hovT] at hov; cases hov)
+    (by intro hov; rw [hovT] at hov; cases hov)
+    (by intro hov; rw [hovT] at hov; cases hov)
   rw [nl_merged h hc, hbotE] at core
   simp only [newestLE_nil, pick_none_right, pick_assoc] at core ⊢
   exact core
@@ -1345,6 +1539,92 @@ theorem put_layered {s : Lsm} (hl : Layered s) {e : Ent}
     rcases hmemE x hx with rfl | hx
     · exact hnew y (mem_allEntries.mpr (.inr (.inr ⟨i, tbls, t, hi, ht, hy⟩))) hk.symm
     · exact p2 x hx i tbls t hi ht y hy hk
+
+theorem put_layeredX {s : Lsm} (hl : LayeredX s) {e : Ent}
+    (hnew : ∀ x ∈ s.allEntries, x.key = e.key → x.ver ≤ e.ver) : LayeredX (s.putEnt e) := by
+  obtain ⟨p1, p2, p3⟩ := (layeredX_iff s).mp hl
+  rw [layeredX_iff]
+  have hmemE : ∀ x ∈ memEnts (s.putEnt e), x = e ∨ x ∈ memEnts s := by
+    intro x hx
+    unfold memEnts Lsm.putEnt at hx
+    rcases List.mem_append.mp hx with h1 | h1
+    · rcases mem_memPut_imp h1 with h2 | h2
+      · exact .inl h2
+      · exact .inr (List.mem_append_left _ h2)
+    · exact .inr (List.mem_append_right _ h1)
+  refine ⟨?_, ?_, p3⟩
+  · obtain ⟨q1, q2⟩ := List.pairwise_cons.mp p1
+    refine List.pairwise_cons.mpr ⟨?_, q2⟩
+    intro m hm x hx y hy hk
+    rcases mem_memPut_imp hx with rfl | hx
+    · apply hnew y _ hk.symm
+      exact mem_allEntries.mpr (.inr (.inl ⟨m, List.mem_reverse.mp hm, hy⟩))
+    · exact q1 m hm x hx y hy hk
+  · intro x hx i tbls t hi ht y hy hk
+    rcases hmemE x hx with rfl | hx
+    · exact hnew y (mem_allEntries.mpr (.inr (.inr ⟨i, tbls, t, hi, ht, hy⟩))) hk.symm
+    · exact p2 x hx i tbls t hi ht y hy hk
+
+end LL
+
+/-- an internal key (user key, version) determines the entry across the whole store: two stored
+    copies of the same internal key are identical. Holds in non-managed mode (commit timestamps are
+    unique and a transaction writes a key once); F2 is exactly a violation of it. -/
+def KeyVerUnique (s : Lsm) : Prop := LL.KVFun s.allEntries
+
+instance (s : Lsm) : Decidable (KeyVerUnique s) := by unfold KeyVerUnique LL.KVFun; infer_instance
+
+namespace LL
+
+theorem keyVerUnique_l0 {s : Lsm} {cd : CompactDef} (hu : KeyVerUnique s) (h : LsmInv s) (hb : CdBase s cd) :
+    KVFun (lvlChunk 0 (cdThisT s cd)) := by
+  apply kvFun_subset hu
+  intro x hx
+  obtain ⟨t, ht, hxt⟩ := mem_lvlChunk.mp hx
+  exact mem_allEntries.mpr (.inr (.inr ⟨_, _, t, (this_level h hb).1, ht, hxt⟩))
+
+theorem compact_keyVerUnique {s s' : Lsm} {cd : CompactDef} {d n now : Nat} (h : LsmInv s) (hu : KeyVerUnique s)
+    (hc : CompactOk s cd) (hs : s.compact cd d n now = some s') : KeyVerUnique s' := by
+  obtain ⟨new0, hsp, rfl⟩ := compact_some hs
+  exact kvFun_subset hu (fun x hx => mem_allEntries_compact h hc hsp hx)
+
+theorem flush_keyVerUnique {s : Lsm} (hu : KeyVerUnique s) (id : Nat) : KeyVerUnique (s.flush id) :=
+  kvFun_subset hu (fun x hx => (mem_allEntries_flush s id x).mp hx)
+
+theorem put_keyVerUnique {s : Lsm} (hu : KeyVerUnique s) {e : Ent}
+    (hnew : ∀ x ∈ s.allEntries, x.key = e.key → x.ver < e.ver) : KeyVerUnique (s.putEnt e) := by
+  intro x hx y hy hk hv
+  rcases mem_allEntries_put hx with rfl | hx' <;> rcases mem_allEntries_put hy with rfl | hy'
+  · rfl
+  · have := hnew y hy' hk.symm; omega
+  · have := hnew x hx' hk; omega
+  · exact hu x hx' y hy' hk hv
+
+end LL
+
+/-- within these tables an internal key determines the entry (two copies of `key@ver` are equal) -/
+def TblsFun (l : List Tbl) : Prop :=
+  ∀ a ∈ l, ∀ b ∈ l, ∀ x ∈ a.ents, ∀ y ∈ b.ents, x.key = y.key → x.ver = y.ver → x = y
+
+instance (l : List Tbl) : Decidable (TblsFun l) := by unfold TblsFun; infer_instance
+
+namespace LL
+
+theorem tblsFun_chunk {i : Nat} {l : List Tbl} (h : TblsFun l) : KVFun (lvlChunk i l) := by
+  intro x hx y hy hk hv
+  obtain ⟨a, ha, hxa⟩ := mem_lvlChunk.mp hx
+  obtain ⟨b, hb, hyb⟩ := mem_lvlChunk.mp hy
+  exact h a ha b hb x hxa y hyb hk hv
+
+theorem tblsFun_of_chunk {i : Nat} {l : List Tbl} (h : KVFun (lvlChunk i l)) : TblsFun l :=
+  fun a ha b hb x hx y hy hk hv =>
+    h x (mem_lvlChunk.mpr ⟨a, ha, hx⟩) y (mem_lvlChunk.mpr ⟨b, hb, hy⟩) hk hv
+
+theorem tblsFun_of_distinct {l : List Tbl} (hs : ∀ t ∈ l, SortedEnts t.ents) (hd : TblsDistinct l) : TblsFun l :=
+  tblsFun_of_chunk (i := 0) (kvFun_chunk hs hd)
+
+theorem tblsFun_of_unique {s : Lsm} {cd : CompactDef} (hu : KeyVerUnique s) (h : LsmInv s) (hb : CdBase s cd) :
+    TblsFun (cdThisT s cd) := tblsFun_of_chunk (keyVerUnique_l0 hu h hb)
 
 end LL
 end Badger
